@@ -521,6 +521,26 @@ func runC04(b *runner.Batch) {
 				b.Hit("clock-jump-below-ten-years")
 			}
 		}
+		if b.Rng.IntN(12) == 0 {
+			// the placement roster of some id — live, removed or never seen — is accumulated, fixed and cleared by the
+			// Alphabet: that is another part of the contract's storage, the registry does not move (seeded change
+			// C04-10: roster keys under the tombstones' prefix, so that clearing a roster lifts a tombstone)
+			id := e.pickID()
+			A, _, _ := e.alphaSigners(0)
+			if b.Rng.IntN(2) == 0 {
+				e.w.Invoke(A, e.cn, "addNextEpochNodes", id, int64(0), []any{e.owners[0].priv.PublicKey().Bytes()})
+				b.Tx(1)
+			}
+			var reps any
+			if b.Rng.IntN(2) == 0 {
+				reps = []any{int64(1)}
+			}
+			e.w.Invoke(A, e.cn, "commitContainerListUpdate", id, reps)
+			b.Tx(1)
+			b.Hit("roster-operations-between-registry-operations")
+			e.sweepC04(e.w.History[len(e.w.History)-1:])
+			continue
+		}
 		switch k := b.Rng.IntN(20); {
 		case k < 9:
 			o := e.genPut(4)
